@@ -10,7 +10,7 @@ from ..cfg import build_cfg, calls_in, node_calls
 from ..core import Ctx, property_info, rule
 from ..jinja import outputs, template_files
 from ..model import AnalysisError, FuncInfo, norm_text, walk_no_nested
-from ..q import A, asrc, call_name_of, control_deps, entry_conditions, flows, names_from_calls, forms, return_values, is_self_attr, kwarg, stores, unparse
+from ..q import A, asrc, call_name_of, control_deps, entry_conditions, flows, leaves_at, names_from_calls, forms, return_values, is_self_attr, kwarg, stores, unparse
 
 SCOPE = ("xsdata.codegen", "xsdata.formats.dataclass.generator", "xsdata.formats.dataclass.filters", "xsdata.formats.mixins", "xsdata.models.config", "xsdata.models.xsd",
          "xsdata.models.mixins", "xsdata.models.wsdl", "xsdata.models.dtd", "xsdata.utils.text", "xsdata.utils.package", "xsdata.utils.graphs", "xsdata.utils.collections")
@@ -186,13 +186,23 @@ def duplicate_handling_keyed_like_naming(ctx: Ctx) -> None:
     ctx.ob("Attr.slug = text.alnum(name)", sl is not None and [unparse(v) for v in return_values(sl.node)] == ["text.alnum(self.name)"], at=sl or rd, construct="attr slug", msg="slug computed differently from safe_name's slug")
     rc = ctx.repo.func("xsdata.codegen.handlers.rename_duplicate_classes:RenameDuplicateClasses.run")
     gb = [c for c in calls_in(rc.node) if call_name_of(c) == "group_by" and len(c.args) == 2]
-    ok = bool(gb) and all(isinstance(c.args[1], ast.Lambda) and isinstance(c.args[1].body, ast.Call) and call_name_of(c.args[1].body) == "alnum" for c in gb)
+    def _key_is_slug(k: ast.expr) -> bool:
+        if isinstance(k, ast.Lambda):
+            return isinstance(k.body, ast.Call) and call_name_of(k.body) == "alnum"
+        if isinstance(k, ast.Name):  # a local def used as key function
+            for d in ast.walk(rc.node):
+                if isinstance(d, ast.FunctionDef) and d.name == k.id:
+                    rv = [r.value for r in ast.walk(d) if isinstance(r, ast.Return)]
+                    return bool(rv) and all(isinstance(v, ast.Call) and call_name_of(v) == "alnum" for v in rv)
+        return False
+
+    ok = bool(gb) and all(_key_is_slug(c.args[1]) for c in gb)
     ctx.ob("duplicate classes are grouped by text.alnum(name | qname)", ok, at=rc, construct="class grouping key", msg="class grouping key changed")
     nq = ctx.repo.func("xsdata.codegen.handlers.rename_duplicate_classes:RenameDuplicateClasses.next_qname")
     gq = build_cfg(nq.node)
     rsv = names_from_calls(nq.node, ("get_reserved",)) | {"reserved"}
     memb = [t for t in gq.nodes if t.kind == "test" and isinstance(t.ast, ast.Compare) and len(t.ast.ops) == 1 and isinstance(t.ast.ops[0], (ast.In, ast.NotIn)) and unparse(t.ast.comparators[0]) in rsv]
-    slugged = bool(memb) and all(any(f.startswith("text.alnum(") for f in forms(nq, t, t.ast.left)) for t in memb)
+    slugged = bool(memb) and all(_is_slug(nq, t, t.ast.left) for t in memb)
     adds = [n for n in gq.stmts() if any(isinstance(c.func, ast.Attribute) and c.func.attr == "add" and unparse(c.func.value) in rsv for c in node_calls(n))]
     rets = [r for r in gq.returns() if r.ast.value is not None]
     ok = slugged and bool(adds) and bool(rets) and all(any(gq.only_if(r.id, t.id, isinstance(t.ast.ops[0], ast.NotIn)) for t in memb) and gq.must_pass(gq.entry, r.id, [a_.id for a_ in adds]) for r in rets)
@@ -207,12 +217,19 @@ def duplicate_handling_keyed_like_naming(ctx: Ctx) -> None:
     ctx.ob("update_references rewrites the type's qname first and then the '@enum@<qname>::member' default with the NEW qname", ok, at=ur, construct="enum default follows rename",
            msg="the enum default keeps the old qname: Filters.field_default_enum finds no matching type and raises StopIteration")
     cont = ctx.repo.func("xsdata.codegen.container:ClassContainer.designate_classes")
-    names = [unparse(c.func) for c in calls_in(cont.node) if isinstance(c.func, ast.Name) and c.func.id[0].isupper()]
+    wanted_ = ("MergeDuplicateClasses", "RenameDuplicateClasses", "ValidateReferences", "DesignateClassPackages")
+    names = [x.id for x in sorted((x for x in walk_no_nested(cont.node) if isinstance(x, ast.Name) and isinstance(x.ctx, ast.Load) and x.id in wanted_), key=lambda x: (x.lineno, x.col_offset))]
     ctx.ob("designators run MergeDuplicateClasses, RenameDuplicateClasses, ValidateReferences, DesignateClassPackages in this order", names == ["MergeDuplicateClasses", "RenameDuplicateClasses", "ValidateReferences", "DesignateClassPackages"], at=cont,
            construct="designator order", msg=f"order {names}")
     init = ctx.repo.func("xsdata.codegen.container:ClassContainer.__init__")
     src = unparse(init.node)
     ctx.ob("RenameDuplicateAttributes runs in SANITIZE, after every FLATTEN handler that can add attrs", "Steps.SANITIZE: [ResetAttributeSequences(), RenameDuplicateAttributes()]" in src, at=init, construct="rename attrs schedule", msg="schedule changed")
+
+
+def _is_slug(fi: FuncInfo, where, e: ast.expr) -> bool:
+    """Every value that can flow into ``e`` is an alnum slug: text.alnum(...) / get_slug(...)."""
+    leaves = leaves_at(fi, where, e)
+    return bool(leaves) and all(isinstance(x, ast.Call) and call_name_of(x) in ("alnum", "get_slug") for x in leaves)
 
 
 @rule("C07.R6")
@@ -226,13 +243,23 @@ def free_name_searches_compare_slugs(ctx: Ctx) -> None:
         for t in g.nodes:
             if t.kind == "test" and isinstance(t.ast, ast.Compare) and len(t.ast.ops) == 1 and isinstance(t.ast.ops[0], (ast.In, ast.NotIn)) and coll_pred(t.ast.comparators[0]):
                 n += 1
-                ok = ok and any(f.startswith(("text.alnum(", "get_slug(", "alnum(")) for f in forms(fi, t, t.ast.left))
+                ok = ok and _is_slug(fi, t, t.ast.left)
         return ok and n > 0, n
 
     na = ctx.repo.func("xsdata.codegen.handlers.disambiguate_choices:DisambiguateChoices.next_available_name")
     reserved_locals = {tgt.id for st, tgt, v in stores(na.node) if isinstance(tgt, ast.Name) and isinstance(v, (ast.SetComp, ast.Set)) or (isinstance(tgt, ast.Name) and isinstance(v, ast.Call) and unparse(v.func) == "set")}
     built = [v for st, tgt, v in stores(na.node) if isinstance(tgt, ast.Name) and tgt.id in reserved_locals and v is not None]
-    built_ok = bool(built) and all((isinstance(v, ast.SetComp) and isinstance(v.elt, ast.Call) and call_name_of(v.elt) == "alnum") or (isinstance(v, ast.Call) and any(isinstance(x, ast.Name) and x.id in ("get_slug",) or (isinstance(x, ast.Attribute) and x.attr == "alnum") for x in ast.walk(v))) for v in built)
+    adds = [c for c in calls_in(na.node) if isinstance(c.func, ast.Attribute) and c.func.attr in ("add", "update") and isinstance(c.func.value, ast.Name) and c.func.value.id in reserved_locals]
+    adds_ok = all(len(c.args) == 1 and any((isinstance(x, ast.Attribute) and x.attr == "alnum") or (isinstance(x, ast.Name) and x.id == "get_slug") for x in ast.walk(c.args[0])) for c in adds)
+
+    def _slug_set(v: ast.expr) -> bool:
+        if isinstance(v, ast.SetComp):
+            return isinstance(v.elt, ast.Call) and call_name_of(v.elt) == "alnum"
+        if isinstance(v, ast.Call) and unparse(v.func) == "set" and not v.args:
+            return bool(adds)  # an empty set filled through .add(<slug>)
+        return isinstance(v, ast.Call) and any(isinstance(x, ast.Name) and x.id in ("get_slug",) or (isinstance(x, ast.Attribute) and x.attr == "alnum") for x in ast.walk(v))
+
+    built_ok = bool(built) and all(_slug_set(v) for v in built) and adds_ok
     ok, _ = slug_only_membership(na, lambda c: isinstance(c, ast.Name) and c.id in reserved_locals)
     ctx.ob("DisambiguateChoices.next_available_name reserves and compares text.alnum slugs of the inner class names", ok and built_ok, at=na, construct="inner name search",
            msg="raw names are compared: `item` and `Item` are both free, both become class Item and the second shadows the first")
